@@ -85,6 +85,11 @@ CHECKS = {
         technique='stateless model checking of the real code: real threads under a deterministic cooperative scheduler (sys.settrace line events inside the package), all schedules up to a preemption bound enumerated depth-first over choice prefixes (iterative context bounding), result of every thread compared with the sequential run',
         text='Two or three real threads perform first-use and repeated pformat calls on a class registered by name, its subclass, a directly registered class, an unregistered object, a struct sequence and small containers; the scheduler can switch at every line boundary inside the package and the explorer enumerates every schedule with at most B preemptions (B = 1 at every line plus B = 2 at the lines of functions that the source shows to touch shared mutable state in the quick tier; B = 2 everywhere / 3 at visible lines in the thorough tier). Every execution must return the sequential texts in every thread, raise nowhere and leave the registries in the sequential end state. The window between the membership test and the pop of the deferred registry is a few bytecodes wide - a stress test almost never hits it, a controlled schedule hits it deterministically.',
         note='trusted: sys.settrace line-event delivery; switches inside functools / warnings / C code are not modelled (atomic), nor are free-threaded builds; visible lines are computed from the package AST, and the all-lines exploration at the lower bound validates that reduction; each schedule is replayable (run-length encoded) and the harness asserts that replaying the empty schedule twice gives identical observations'),
+    'C16': dict(
+        category='exploration', design_ref='DESIGN.md 4/C16',
+        technique='exhaustive cross product of a value corpus x widths x every installed pygments style + the two bundled styles x three colour modes with colour forced on, and exhaustive enumeration of annotated documents up to a node bound; output decoded by an independent SGR state machine and compared per character with the annotation structure of the SDoc stream',
+        text='Every corpus value is written by cpprint under every style shipped with the installed pygments and both bundled styles in 8/256/true-colour mode; the decoded text must equal the plain rendering exactly, the stream must end in the reset state, no style may make rendering fail, and in true-colour mode every non-blank character must carry exactly the attributes style_for_token gives for the innermost enclosing token annotation (so restoring the enclosing style after an inner token, and non-token annotations inside tokens, are checked). All annotated documents up to six nodes (nesting <= 3) go through colored_render_to_stream the same way. Under pytest colorful emits no escape sequence at all, so none of this logic had ever produced a byte in a test run.',
+        note='trusted: pygments style_for_token as the meaning of a style; the SGR decoder of mc/checks/c16.py; blank characters are compared only through the stripped text; colorful global mode is owned by the check process'),
 }
 
 ALL = ['C%02d' % i for i in range(1, 21)]
